@@ -17,7 +17,8 @@
 (*   RenameOne target, repl, sp, ok, toks, text, vok, vals                            *)
 (*   RenameVia route, map, sp, built (the Equation could be constructed), ok, pre     *)
 (*             (tokens of the right-hand side before the call), toks (after), vok,    *)
-(*             vals                                                                   *)
+(*             vals; toks2, vok2, vals2: the same for the second equation that owns   *)
+(*             the Term objects (routes shared_*; a copy of toks, vok, vals otherwise)*)
 (*   ListNames sp, ok, names                                                          *)
 (*   End                                                                              *)
 EXTENDS Tokens, Json, IOUtils
@@ -57,16 +58,19 @@ JudgeRename(e, ts, m, predicted) ==
 (* through Equation / EquationBlock: the sentences on the stored form e.pre; the value is   *)
 (* that of the expression (normal forms keep it); an Equation that refuses the text has     *)
 (* nothing to rename                                                                        *)
+JudgeOwner(e, ts, m, got, vok, vals) ==
+    IF ~OnlyWholeNames(e.pre, m, got) THEN V("property", "C13_OnlyWholeNames")
+    ELSE IF ~Simultaneous(e.pre, m, got) THEN V("property", "C13_Simultaneous")
+    ELSE IF AllIdentity(m) /\ got # e.pre THEN V("property", "C13_Simultaneous")
+    ELSE IF MustPreserve(ts, m) /\ (~vok \/ vals # << Expected(ts, 1), Expected(ts, 2) >>)
+         THEN V("property", "C13_ValuePreserved")
+    ELSE Ok
+
 JudgeVia(e, ts, m) ==
     IF ~e.built THEN Ok
     ELSE IF ~e.ok THEN V("property", "C13_OnlyWholeNames")
     ELSE IF NamesOp(e.pre) # NamesOp(ts) THEN V("drift", "stored_names")
-    ELSE IF ~OnlyWholeNames(e.pre, m, e.toks) THEN V("property", "C13_OnlyWholeNames")
-    ELSE IF ~Simultaneous(e.pre, m, e.toks) THEN V("property", "C13_Simultaneous")
-    ELSE IF AllIdentity(m) /\ e.toks # e.pre THEN V("property", "C13_Simultaneous")
-    ELSE IF MustPreserve(ts, m) /\ (~e.vok \/ e.vals # << Expected(ts, 1), Expected(ts, 2) >>)
-         THEN V("property", "C13_ValuePreserved")
-    ELSE Ok
+    ELSE Worse(JudgeOwner(e, ts, m, e.toks, e.vok, e.vals), JudgeOwner(e, ts, m, e.toks2, e.vok2, e.vals2))
 
 JudgeList(e, ts, predicted) ==
     IF ~e.ok THEN V("property", "C13_ListIsNamesInOrder")
